@@ -561,6 +561,10 @@ func runC05(cfg Config, r *Result) {
 			c05Check(c, m, p)
 		}
 	}
+	// the same bases and mutants through the parser model (coq/Parser.v, theorems Props/C05_parse.v): harness/c05rules.go
+	rule := r.Rule
+	runC05rules(cfg, r)
+	r.Rule = rule + "; PARSER MODEL: " + r.Rule
 }
 
 // small seed programs that contain every block form (so that every rule meets every nesting)
